@@ -15,11 +15,20 @@ the expected unread rest.  Independently of Lean the harness reloads each object
 import concurrent.futures as cf
 import json
 import os
+import re
+import sys
 
 from vlib import common as C
 
+sys.path.insert(0, os.path.join(C.ROOT, "tools"))
+
 SIMPLE = ["hash", "fit", "iga", "ide", "mati", "matu", "dist"]
 BIG = ["imep", "team", "pop", "summ", "cache", "lam"]
+# round 3: the other integral element types of matrix<T>, the containers over i_ga / i_de, evaluator_proxy,
+# search::save/load through env.misc.serialization_file, histories of load<T> calls against the factory,
+# boundary doubles through save_float_to_stream / load_float_from_stream
+MORE = ["matl", "matul", "mats", "matus", "matc", "matsc", "matuc", "teamga", "popga", "popde", "summga", "summde",
+        "proxy", "search", "lamfac", "flt"]
 REST = {"fit": "-", "lam": None}          # unread rest after load (hex); default "0a" (the final newline)
 
 COUNTS = {   # objects per type: (quick, thorough)
@@ -27,6 +36,11 @@ COUNTS = {   # objects per type: (quick, thorough)
     "mati": (3000, 60000), "matu": (3000, 60000), "dist": (4000, 80000),
     "imep": (9000, 200000), "team": (1500, 30000), "pop": (1500, 30000), "summ": (3000, 60000),
     "cache": (3000, 60000), "lam": (1200, 24000),
+    "matl": (600, 12000), "matul": (600, 12000), "mats": (600, 12000), "matus": (600, 12000),
+    "matc": (800, 16000), "matsc": (800, 16000), "matuc": (800, 16000),
+    "teamga": (1000, 20000), "popga": (800, 16000), "popde": (800, 16000), "summga": (800, 16000),
+    "summde": (800, 16000), "proxy": (600, 12000), "search": (300, 5000), "lamfac": (300, 5000),
+    "flt": (20000, 20000),          # the whole boundary list, every run
 }
 NEEDS_CTX = {"imep", "team", "pop", "summ"}
 
@@ -57,7 +71,7 @@ def parse_obj(line):
     if len(parts) > 3 and parts[3] != "-":
         for kv in parts[3].split(","):
             k, v = kv.split("=")
-            tags[k] = int(v) if v.lstrip("-").isdigit() else v
+            tags[k] = int(v) if v.lstrip("-").isdigit() and k != "out" else v
     return {"type": head[1], "ints": " ".join(head[2:]), "hex": parts[1], "verdict": parts[2], "tags": tags,
             "own_ctx": parts[4] if len(parts) > 4 else None}
 
@@ -90,6 +104,8 @@ def gen_objects(exe, seed, n, typ, want_pending=False):
                 o["ctx"] = o["own_ctx"]
             if o["type"] == "cache":
                 o["ctx"] = o["ints"].split()[0]          # the fresh target has the same number of bits
+            if o["type"] == "lamfac":
+                o["ctx"] = ""
             objs.append(o)
             pending = None
     return (rc, objs, se, pending) if want_pending else (rc, objs, se)
@@ -98,15 +114,48 @@ def gen_objects(exe, seed, n, typ, want_pending=False):
 def model_answers(objs):
     lines = []
     for o in objs:
+        if o["type"] == "lamfac":          # a history of load<T> calls: the model predicts the outcome of each call
+            lines.append(f"factory {o['ints']}")
+            lines.append("noop")
+            continue
         lines.append(f"save {o['type']} {o['ints']}")
         lines.append(f"load {o['type']} {o['hex']} {o['ctx']}")
     out = C.run_driver("c11_driver", lines)
     return [(out[2 * i], out[2 * i + 1]) for i in range(len(objs))]
 
 
+def regen_formats(chk, broken):
+    """lean/Vita/C11/GenFormats.lean from the clang AST of the current tree (cached by source hash)."""
+    import translate_formats
+    from cxx2lean import Refuse
+    gen = os.path.join(C.LEAN, "Vita", "C11", "GenFormats.lean")
+    stamp = os.path.join(C.BUILD, "c11_formats.stamp")
+    key = C.repo_tree_hash(open(translate_formats.__file__).read() +
+                           open(os.path.join(C.ROOT, "tools", "tu", translate_formats.TU)).read())
+    os.makedirs(C.BUILD, exist_ok=True)
+    try:
+        if os.path.exists(stamp) and os.path.exists(gen):
+            old = open(stamp).read().split("\n", 1)
+            if old[0] == key and len(old) > 1 and old[1] == open(gen).read():
+                chk.cov["formats_translated"] = len(re.findall(r"^def e\d+ : Entry", old[1], re.M))
+                chk.cov["formats_cached"] = True
+                return True
+        names, changed = translate_formats.emit(gen, jobs=4)
+        chk.cov["formats_translated"] = len(names)
+        chk.cov["formats_changed_vs_committed"] = bool(changed)
+        with open(stamp, "w") as f:
+            f.write(key + "\n" + open(gen).read())
+        return True
+    except Refuse as e:
+        broken.append("translator tools/translate_formats.py refuses the current save / load functions: %s" % e)
+        return False
+
+
 def run(chk, replay=None):
-    types = SIMPLE + BIG
+    types = SIMPLE + BIG + MORE
     broken = []
+    os.environ["VERIF_C11_TMP"] = C.BUILD            # search::save / load write one small file there
+    regen_formats(chk, broken)
     ok, msg = chk.prove("Vita.C11.Props", ["Vita.C11.Props", "c11_driver"])
     drv_ok = os.path.exists(C.driver_path("c11_driver"))
     if not ok:
@@ -181,7 +230,15 @@ def run(chk, replay=None):
                 tags["oracle"] = o["verdict"]
                 chk.violation(f"{typ}: save followed by load into a fresh object does not reproduce the object "
                               f"({o['verdict']}); object = {o['ints'][:300]}", rep, tags=tags)
-            if ans is not None:
+            if ans is not None and typ == "lamfac":
+                pred = ans[k][0]
+                if pred != "ok " + str(o["tags"].get("out", "")):
+                    ndis += 1
+                    if ndis <= 3:
+                        broken.append(f"the model of the lambda factory disagrees with the code on the history of "
+                                      f"load<T> calls `{o['ints']}` (gen {gen}, index {i}): code outcomes "
+                                      f"{o['tags'].get('out')}, model {pred}")
+            elif ans is not None:
                 msave, mload = ans[k]
                 # (A) the model parses vita's bytes to the same object, leaving only white space unread
                 if o["verdict"] == "ok":
@@ -207,12 +264,26 @@ def run(chk, replay=None):
                 chk.sample({"type": typ, "object": o["ints"][:200], "bytes": bytes.fromhex(o["hex"]).decode("latin1")[:200]
                             if o["hex"] != "-" else "", "oracle": o["verdict"]}, limit=12)
     ex.shutdown()
+    cross = [c for c in cross if c[0] not in ("search", "lamfac")]
     if cross:
-        ld = C.build_harness("c12_load", "asan", extra_flags=["-DVERIF_INC=" + inc_hash()])
+        ld = C.build_harness("c12_load", "asan", extra_flags=["-DVERIF_INC=" + inc_hash()]) \
+            if [c for c in cross if c[0] not in MORE] else None
         def second(typ, o):          # cache: bits of the fresh target; models: problem id; else a target seed
             return o["ints"].split()[0] if typ == "cache" else o["tags"].get("prob", 0) if typ == "lam" else 1
-        reqs = [f"ld {typ} {second(typ, o)} {msave}" for typ, _, _, o, msave in cross]
-        outs, deaths = C.run_lines(ld, reqs, timeout=3000)
+        reqs = [f"ld {typ} {o['ctx'] if typ in MORE and o['ctx'] else second(typ, o)} {msave}"
+                for typ, _, _, o, msave in cross]
+        # the round-3 types are loaded back by the `ld` mode of c11_ser itself
+        idx_more = [j for j, c in enumerate(cross) if c[0] in MORE]
+        idx_old = [j for j, c in enumerate(cross) if c[0] not in MORE]
+        outs = [""] * len(cross)
+        if idx_old:
+            o1, _ = C.run_lines(ld, [reqs[j] for j in idx_old], timeout=3000)
+            for j, a in zip(idx_old, o1):
+                outs[j] = a
+        if idx_more:
+            o2, _ = C.run_lines(exe, [reqs[j] for j in idx_more], args=["ld"], timeout=3000)
+            for j, a in zip(idx_more, o2):
+                outs[j] = a
         for (typ, gen, i, o, msave), a in zip(cross, outs):
             t = a.split()
             got = " ".join(t[2:]) if len(t) > 2 else ""
